@@ -66,13 +66,13 @@ for prop in sorted(os.listdir(src)):
             meta = {
                 "seed": sid,
                 "property": prop,
-                "breaks": m.get("summary"),
+                "breaks": m.get("breaks") or m.get("summary"),
                 "needs_to_manifest": m.get("needs_to_manifest"),
-                "why_existing_tests_pass": m.get("why_tests_pass"),
+                "why_existing_tests_pass": m.get("why_existing_tests_pass") or m.get("why_tests_pass"),
                 "files_changed": m.get("files_changed"),
                 "demonstration": sorted(f for f in os.listdir(dst) if f.startswith("demo")),
                 "author": "fresh sub-agent given only the property record and a scratch worktree",
-                "author_commands": m.get("commands_run"),
+                "author_commands": m.get("author_commands") or m.get("commands_run"),
                 "rebased": mode,
                 "detected_by": old.get("detected_by", []),
                 "detail": old.get("detail", {}),
